@@ -5,7 +5,7 @@ import ast
 import struct
 
 from ..consteval import CallVal, ConstEval, EnumVal, StructVal, Sym, enum_members, is_const
-from ..core import (AnalysisError, match_as_if, ap, atoms, call_attr, calls, facts, find_calls, kw, norm, src,
+from ..core import (AnalysisError, clone_ast, match_as_if, ap, atoms, call_attr, calls, facts, find_calls, kw, norm, src,
                     stores, walk, parent, enclosing_stmt)
 from ..miniinterp import run_block
 from ..tmplmodel import parse_template
@@ -134,7 +134,7 @@ def callable_norm(repo, mod, node) -> str:
     parameter renamed to `_`; anything else to its normalised source."""
     import copy
     if isinstance(node, ast.Lambda) and len(node.args.args) == 1:
-        body = _RenameArg(node.args.args[0].arg).visit(copy.deepcopy(node.body))
+        body = _RenameArg(node.args.args[0].arg).visit(clone_ast(node.body))
         return norm(body)
     if isinstance(node, ast.Name):
         cands = [g for g in repo.funcs.get(node.id, []) if g.module is mod and g.cls is None and g.parent_fn is None]
@@ -142,7 +142,7 @@ def callable_norm(repo, mod, node) -> str:
             body = [st for st in cands[0].node.body
                     if not (isinstance(st, ast.Expr) and isinstance(st.value, ast.Constant))]
             if len(body) == 1 and isinstance(body[0], ast.Return) and body[0].value is not None:
-                expr = _RenameArg(cands[0].node.args.args[0].arg).visit(copy.deepcopy(body[0].value))
+                expr = _RenameArg(cands[0].node.args.args[0].arg).visit(clone_ast(body[0].value))
                 return norm(expr)
     return norm(node)
 
